@@ -23,6 +23,13 @@ Theorem envelope_members t ty v : wf v ->
 Proof.
   intros Hw. unfold envelope. rewrite (parse_doc_line _ (wf_envelope t ty v Hw)). reflexivity.
 Qed.
+(* when the time text, the type and every string of the payload are valid UTF-8 the members are the very values *)
+Corollary envelope_members_valid t ty v : wf v -> utf8_valid t = true -> utf8_valid ty = true -> jvalid v ->
+  parse_doc (envelope t ty v) = Some (JObj [(k_created_at, JStr t); (k_event_type, JStr ty); (k_payload, v)]).
+Proof.
+  intros Hw Ht Hty Hv. rewrite (envelope_members t ty v Hw).
+  rewrite (sanitize_valid t Ht), (sanitize_valid ty Hty), (jimage_valid v Hv). reflexivity.
+Qed.
 (* it is one line: the only newline is the terminating one *)
 Theorem envelope_single_line t ty v : wf v -> exists body, envelope t ty v = body ++ [10] /\ ~ In 10 body.
 Proof. intros Hw. apply encode_line_single. apply wf_envelope. exact Hw. Qed.
